@@ -3,5 +3,8 @@ CONSTANTS
   G = {1, 2, 3}
   Ops = 3
   PutEarly = FALSE
-INVARIANTS Independent Exclusive
+  ResetOnError = TRUE
+  LazyInit = "once"
+  MayFail = TRUE
+INVARIANTS Independent Exclusive HeldNotPooled PoolClean NoBlindRead
 CHECK_DEADLOCK FALSE
